@@ -19,6 +19,17 @@ def run(rep, tier):
                               'From<SafeLong> for {i64,i128}', 'TryFrom<SafeLong> for {u64,i32}']
     kani.handle_failures(rep, failed, 'C15')
     run_m(rep, tier)
+    # twins: the corner values through every text / document route (plain text, JSON value, JSON key, Any, key inside Any)
+    from mirsym.harness import replay
+    MAXS = 2 ** 53 - 1
+    inr, outr = [0, 1, -1, MAXS, -MAXS], [MAXS + 1, -MAXS - 1, 2 ** 63 - 1, -2 ** 63]
+    ops = [{'op': 'safelong_text', 'hex': str(n).encode().hex()} for n in inr + outr]
+    for n, r in zip(inr + outr, replay(ops)):
+        for route, got in r.items():
+            good = (got.get('ok') and got.get('value') == str(n)) if n in inr else not got.get('ok')
+            if not good:
+                rep.violation('C15:native-twin', f'safelong {n} through {route}: {got} (must be {"accepted unchanged" if n in inr else "rejected"})', {'n': str(n), 'native': r})
+    rep.replayed += len(ops)
 
 
 # ---------------------------------------------------------------- engine M: text routes (FromStr / FromPlain) on real MIR
